@@ -27,6 +27,10 @@ inductive PyExc where
   | exc (name : Str)          -- an instance of (a subclass of) `Exception` other than `ExpatError`
   | base (name : Str)         -- a `BaseException` that is not an `Exception`
   | expat (line col : Int)    -- `xml.parsers.expat.ExpatError` carrying `lineno`, `offset`
+  | codec (line col : Int)    -- the `LookupError` / `ValueError` of Python's codec machinery that pyexpat lets
+                              -- through when the XML declaration names an encoding Python cannot provide (Expat's
+                              -- error code is then UNKNOWN_ENCODING); `line`, `col`: Expat's `ErrorLineNumber`,
+                              -- `ErrorColumnNumber` at that moment. An `Exception` for every other purpose.
   deriving DecidableEq, Repr, Inhabited
 
 /-- what leaves `parse()` when something was raised inside `_generate` -/
